@@ -626,7 +626,44 @@ def r11_hash_is_read(ctx, cfg):
     ctx.floor(rule, n, 40, "read_exact call sites analysed")
 
 
+def r12_every_item_validated(ctx, cfg):
+    """a validator applied to the items of a collection through an iterator adaptor must gate on EVERY item: `all(|x| verify(x))`, or
+    `any(|x| !verify(x))` for the failing case. `any(|x| verify(x))` accepts the whole collection as soon as one item is intact"""
+    from .lib import forward_calls, return_holders
+    rule = "C07.R12"
+    ctx.rule(rule, "an in-scope validator called inside an iterator closure is quantified over all items (all / negated any), never `any(valid)`")
+    vals = discover(ctx.prog)
+    vnames = {(v["body"].root or vid) for vid, v in vals.items() if scope_of(v["body"], ctx.prog)}
+    n = 0
+    for b in ctx.prog.bodies.values():
+        if not b.root or not b.krate.startswith("cascette_") or b.parent not in ctx.prog.bodies:
+            continue
+        vc = [c for c in b.calls if c.id in vnames and c.bb in b.live_blocks()]
+        if not vc:
+            continue
+        pb = ctx.prog.bodies[b.parent]
+        adaptors = []
+        for i, j, st in pb.stmts():
+            r = st["r"]
+            if r["k"] == "Agg" and r.get("body") == b.id and len(st["p"]) == 1:
+                adaptors = [x.name.split("::")[-1] for x in forward_calls(pb, st["p"][0]) if re.search(r"\bIterator>?::(any|all|find|position|filter|skip_while|take_while)$", x.orig_name or x.name)]
+        if not adaptors:
+            continue
+        n += 1
+        ctx.saw(b)
+        rh = return_holders(b)
+        for c in vc:
+            direct = c.dest[0] in rh or any(l in rh for l in copies_of(b, c.dest[0]))
+            negated = any(st["r"]["k"] == "Un" and st["r"]["op"] == "Not" and op_local(st["r"]["o"][0]) in set(copies_of(b, c.dest[0])) and st["p"][0] in rh for i, j, st in b.stmts())
+            bad = ("any" in adaptors and direct and not negated) or ("all" in adaptors and negated and not direct)
+            ctx.check(not bad, rule, [b.id, "quantified-over-all", c.name.split("::")[-1]], "the validator gates every item",
+                      "%s runs %s inside `%s(..)` and returns its verdict %s: the collection is accepted as soon as ONE item validates, so corrupting "
+                      "some but not all items (pages) passes" % (ctx._stable(b.id), c.name.split("::")[-1], adaptors[0], "negated" if negated else "as is"), c.loc())
+    ctx.info("C07.R12: %d iterator closure(s) call an in-scope validator" % n)
+
+
 def run(ctx, cfg=CFG):
+    r12_every_item_validated(ctx, cfg)
     r11_hash_is_read(ctx, cfg)
     r10_skipped_only_when_absent(ctx, cfg)
     r8_prevalidated(ctx, cfg)
